@@ -27,7 +27,7 @@ def _job(arg):
         return {"instance": x, "with_close": wc, "distinct": r.distinct, "generated": r.generated}
     if kind == "probe":
         cfg = tlc.subst_cfg("C06_MC.cfg", replace=[("X_", "A_"), (INVS, "INVARIANTS " + x)])
-        r = tlc.run(ctx, "C06_MC", "gen_probe_%s.cfg" % x, cfg_text=cfg, workers=2, timeout=600, name="probe" + x)
+        r = tlc.run(ctx, "C06_MC", "gen_probe_%s.cfg" % x, cfg_text=cfg, workers=2, timeout=240, name="probe" + x)
         if r.ok or r.violated != x:
             raise MachineryError("vacuity guard %s not reachable" % x)
         return {}
